@@ -7,6 +7,7 @@ import (
 	"go/token"
 	"go/types"
 	"math/big"
+	"sort"
 	"strings"
 
 	"golang.org/x/tools/go/ssa"
@@ -28,6 +29,9 @@ type Translator struct {
 	bound    map[string]tv
 	inOld    bool
 	depth    int
+	appendSite bool
+	symInner map[string]T
+	symInnerOrder []T
 }
 
 type trErr struct{ msg string }
@@ -187,6 +191,9 @@ func (tr *Translator) expr(e Expr) tv {
 	case *EIdent:
 		return tr.lookupIdent(x.Name)
 	case *EGhost:
+		if x.Name == "#alloc" {
+			return tv{tr.stVar("alloc", SInt), tyInt}
+		}
 		return tv{tr.stVar(x.Name, SInt), tyInt}
 	case *EUnary:
 		v := tr.expr(x.X)
@@ -382,12 +389,9 @@ func (tr *Translator) index(x, i tv) tv {
 		as := ArrSort(SInt, ArrSort(SInt, es))
 		// element access through an uninterpreted accessor (axiomatised as the select), so that
 		// quantifier triggers contain no arithmetic
-		inner := ArrSort(SInt, es)
-		fn := f.enc.declFun("at_"+sortSuffix(es), []Sort{inner, SInt, SInt}, es)
-		if len(f.enc.facts[fn]) == 0 {
-			f.enc.addFact(fn, fmt.Sprintf("(assert (forall ((a!t %s) (o!t Int) (i!t Int)) (! (= (%s a!t o!t i!t) (select a!t (+ o!t i!t))) :pattern ((%s a!t o!t i!t)))))", inner, fn, fn))
-		}
-		return tv{App(es, fn, Select(tr.stVar(arr, as), SPtr(x.t)), SOff(x.t), i.t), et}
+		_ = arr
+		_ = as
+		return tv{atTerm(f.enc, es, tr.innerOf(x.t, et), SOff(x.t), i.t), et}
 	case x.t.Sort == SStr:
 		return tv{App(SInt, "byteAt", x.t, i.t), types.Typ[types.Uint8]}
 	case x.ty != nil:
@@ -539,6 +543,16 @@ func (tr *Translator) call(c *ECall) tv {
 		// the *Error that errors.As finds in e's chain (nil when there is none)
 		et := types.NewPointer(f.p.pkg.Types.Scope().Lookup("Error").Type())
 		return tv{unwrapTerm(f.enc, f.p, arg(0).t, et), et}
+	case "isappend":
+		// c == a ++ b (element-wise). At append sites the engine substitutes true.
+		if tr.appendSite {
+			return tv{True, tyBool}
+		}
+		sf, ok := f.p.specs["concatOf"]
+		if !ok {
+			tr.fail("isappend needs spec concatOf")
+		}
+		return tr.specApp(sf, []tv{arg(0), arg(1), arg(2)})
 	case "ptrlike":
 		return tv{App(SBool, "ptrlike", App(SInt, "tag", arg(0).t)), tyBool}
 	case "ptrval":
@@ -723,6 +737,12 @@ func (tr *Translator) specApp(sf *SpecFn, args []tv) tv {
 	}
 	var sorts []Sort
 	var ts []T
+	readsElems := map[string]bool{}
+	for _, r := range sf.Reads {
+		if strings.HasSuffix(r, "[]") {
+			readsElems[strings.TrimSuffix(r, "[]")] = true
+		}
+	}
 	for i, p := range sf.Params {
 		pt := tr.goType(p.Type)
 		s := f.p.sortOf(pt)
@@ -733,10 +753,25 @@ func (tr *Translator) specApp(sf *SpecFn, args []tv) tv {
 		if a.t.Sort != s {
 			tr.fail("spec %s: argument %d has sort %s, expected %s", sf.Name, i, a.t.Sort, s)
 		}
+		if readsElems[p.Name] {
+			// a slice whose elements are read: the function depends on (backing array, offset, length) only
+			st, ok := pt.Underlying().(*types.Slice)
+			if !ok {
+				tr.fail("spec %s: reads %s[]: not a slice parameter", sf.Name, p.Name)
+			}
+			es := f.p.sortOf(st.Elem())
+			f.enc.declSortOf(es)
+			sorts = append(sorts, ArrSort(SInt, es), SInt, SInt)
+			ts = append(ts, tr.innerOf(a.t, st.Elem()), SOff(a.t), SLen(a.t))
+			continue
+		}
 		sorts = append(sorts, s)
 		ts = append(ts, a.t)
 	}
 	for _, r := range sf.Reads {
+		if strings.HasSuffix(r, "[]") {
+			continue
+		}
 		sort, ok := f.enc.stateSort[r]
 		if !ok {
 			sort = f.readSort(r)
@@ -754,6 +789,7 @@ func (tr *Translator) specApp(sf *SpecFn, args []tv) tv {
 	}
 	f.enc.declSortOf(rs)
 	fn := f.enc.declFun("spec_"+sf.Name, sorts, rs)
+	tr.installAutoLemmas(sf.Name, fn)
 	return tv{App(rs, fn, ts...), rty}
 }
 
@@ -871,4 +907,156 @@ func (f *Frame) iterLoopOrdinal(rng ssa.Value) int {
 		}
 	}
 	return -1
+}
+
+// installAutoLemmas: global (separately proved) lemmas whose triggers mention spec function sfName
+// become quantified axioms attached to its SMT symbol. They are quantified over their parameters and
+// over every state variable they read, so they hold in all heap states.
+func (tr *Translator) installAutoLemmas(sfName, fnSym string) {
+	f := tr.f
+	e := f.enc
+	if e.autoDone == nil {
+		e.autoDone = map[string]bool{}
+	}
+	if e.autoDone[sfName] {
+		return
+	}
+	e.autoDone[sfName] = true
+	var names []string
+	for n, lm := range f.p.lemmas {
+		if lm.Auto && strings.Contains(lm.Pats, sfName+"(") && (!lm.LemmaOnly || e.lemmaMode) {
+			names = append(names, n)
+		}
+	}
+	sort.Strings(names)
+	for _, n := range names {
+		lm := f.p.lemmas[n]
+		savedUsed := e.symStateUsed
+		e.symStateUsed = map[string]T{}
+		st := State{"__symbolic": True}
+		lt := &Translator{f: f, cur: st, old: st, allocOld: T{"|alloc!sv|", SInt}, bound: map[string]tv{}}
+		var decl []string
+		for _, prm := range lm.Params {
+			ty := lt.goType(prm.Type)
+			s := f.p.sortOf(ty)
+			e.declSortOf(s)
+			qcount++
+			if s == SSlice {
+				var parts [4]T
+				for k, nm := range []string{"ptr", "off", "len", "cap"} {
+					parts[k] = T{fmt.Sprintf("%s.%s!q%d", prm.Name, nm, qcount), SInt}
+					decl = append(decl, fmt.Sprintf("(%s Int)", parts[k].S))
+				}
+				lt.bound[prm.Name] = tv{MkSlice(parts[0], parts[1], parts[2], parts[3]), ty}
+				continue
+			}
+			v := T{fmt.Sprintf("%s!q%d", prm.Name, qcount), s}
+			lt.bound[prm.Name] = tv{v, ty}
+			decl = append(decl, fmt.Sprintf("(%s %s)", v.S, s))
+		}
+		body := lt.boolExpr(lm.Body)
+		var pats []string
+		for _, grp := range strings.Split(lm.Pats, ";") {
+			var ts []string
+			for _, ps := range splitTopLevel(grp) {
+				pe, err := parseExpr(strings.TrimSpace(ps))
+				if err != nil {
+					tr.fail("lemma %s: bad trigger %q: %v", n, ps, err)
+				}
+				ts = append(ts, lt.expr(pe).t.S)
+			}
+			if len(ts) > 0 {
+				pats = append(pats, ":pattern ("+strings.Join(ts, " ")+")")
+			}
+		}
+		for _, v := range lt.symInnerOrder {
+			decl = append(decl, fmt.Sprintf("(%s %s)", v.S, v.Sort))
+		}
+		var svs []string
+		for k := range e.symStateUsed {
+			svs = append(svs, k)
+		}
+		sort.Strings(svs)
+		for _, k := range svs {
+			v := e.symStateUsed[k]
+			decl = append(decl, fmt.Sprintf("(%s %s)", v.S, v.Sort))
+		}
+		if _, ok := e.symStateUsed["alloc"]; !ok && strings.Contains(body.S, "|alloc!sv|") {
+			decl = append(decl, "(|alloc!sv| Int)")
+		}
+		e.symStateUsed = savedUsed
+		// drop bound variables that do not occur (e.g. ptr/cap of slice parameters): a trigger must cover all variables
+		used := map[string]bool{}
+		symbolsOf(body.S+" "+strings.Join(pats, " "), used)
+		var keep []string
+		for _, d := range decl {
+			name := strings.Fields(strings.TrimPrefix(d, "("))[0]
+			if used[name] {
+				keep = append(keep, d)
+			}
+		}
+		decl = keep
+		ax := fmt.Sprintf("(assert (forall (%s) (! %s %s)))", strings.Join(decl, " "), body.S, strings.Join(pats, " "))
+		e.addFact(fnSym, ax)
+		f.p.usedLemmas[n] = true
+		if lm.Proved == "definition" {
+			e.assumed[fmt.Sprintf("axiom %s: definitional unfolding of a spec function (trusted)", n)] = true
+		}
+	}
+}
+
+func splitTopLevel(s string) []string {
+	var parts []string
+	depth, start := 0, 0
+	for i, c := range s {
+		switch c {
+		case '(', '[', '{':
+			depth++
+		case ')', ']', '}':
+			depth--
+		case ',':
+			if depth == 0 {
+				parts = append(parts, s[start:i])
+				start = i + 1
+			}
+		}
+	}
+	if strings.TrimSpace(s[start:]) != "" {
+		parts = append(parts, s[start:])
+	}
+	return parts
+}
+
+// innerOf: the backing array (Array Int elem) of a slice term in the translator's state. In symbolic
+// state (global lemmas) it is a bound variable of its own, one per slice term.
+func (tr *Translator) innerOf(sl T, elem types.Type) T {
+	f := tr.f
+	es := f.p.sortOf(elem)
+	f.enc.declSortOf(es)
+	if _, sym := tr.state()["__symbolic"]; sym {
+		if tr.symInner == nil {
+			tr.symInner = map[string]T{}
+		}
+		if v, ok := tr.symInner[sl.S]; ok {
+			return v
+		}
+		qcount++
+		v := T{fmt.Sprintf("inner!q%d", qcount), ArrSort(SInt, es)}
+		tr.symInner[sl.S] = v
+		tr.symInnerOrder = append(tr.symInnerOrder, v)
+		return v
+	}
+	as := ArrSort(SInt, ArrSort(SInt, es))
+	return Select(tr.stVar(f.p.sliceArray(elem), as), SPtr(sl))
+}
+
+// atTerm: element access inner[off+i] through the uninterpreted accessor at_<sort> (axiomatised as the
+// select), so quantifier triggers over slice elements contain no arithmetic.
+func atTerm(e *Enc, es Sort, inner, off, i T) T {
+	isort := ArrSort(SInt, es)
+	fn := e.declFun("at_"+sortSuffix(es), []Sort{isort, SInt, SInt}, es)
+	if len(e.facts[fn]) == 0 {
+		e.addFact(fn, fmt.Sprintf("(assert (forall ((a!t %s) (o!t Int) (i!t Int)) (! (= (%s a!t o!t i!t) (select a!t (+ o!t i!t))) :pattern ((%s a!t o!t i!t)))))", isort, fn, fn))
+	}
+	return App(es, fn, inner, off, i)
 }
